@@ -2,7 +2,7 @@
    One request = one S-expression (op arg ...); one response = one S-expression. *)
 From Coq Require Import String.
 From Torf Require Import Base Sexp Bencode PyVal Geometry Stream History Convert Validate Export MonList Filesize Regex UrlQuote Magnet Attr Tree Reuse.
-From Torf Require Pipeline.
+From Torf Require Pipeline Corrupt.
 Open Scope Z_scope.
 
 Definition getFile (s : sexp) : option file := getPair getZ getZ s.
@@ -665,6 +665,12 @@ Definition handle_pipe (op : list N) (args : list sexp) : option sexp :=
                      L (List.map (fun o : Z * Pipeline.alt => L [ZA (fst o); match snd o with Pipeline.AGo => Sy "go" | Pipeline.ATimeout => Sy "timeout" end]) (Pipeline.options c s));
                      ZL (Pipeline.s_seen s)])
         | _, _ => None end
+    | _ => None end
+  else if atom_is "verr.files" op then
+    match args with
+    | [fs; i; l] => match getFiles fs, getZ i, getZ l with
+                    | Some fs, Some i, Some l => Some (res_sexp ZL (Corrupt.corrupt_files fs i l))
+                    | _, _, _ => None end
     | _ => None end
   else None.
 
